@@ -363,8 +363,37 @@ def newtype_probes(ctx: Ctx, eng):
                         ctx.fail("wrapper-not-transparent", f"{w!r} is not processed as {hint!r} on {d!r}", {"hint": repr(w), "datum": repr(d)})
 
 
+def type_alias_probes(ctx: Ctx, eng):
+    """PEP 695 aliases are processed as their value with the arguments bound to the DECLARED parameters - whatever order the
+    parameters appear in inside the value, and also when the value does not use all of them"""
+    ns: dict = {}
+    exec("type Swapped[K, V] = dict[V, K]\n"                    # noqa: S102
+         "type Tri[A, B] = tuple[B, A, B]\n"
+         "type Half[K, V] = list[K]\n"
+         "type Plain[T] = list[T]\n"
+         "type Nested[A, B] = dict[A, list[tuple[B, A]]]\n", ns)
+    cases = [
+        (ns["Swapped"][str, int], dict[int, str], [{1: "a"}, {"a": 1}, {}]),
+        (ns["Tri"][str, int], tuple[int, str, int], [(1, "a", 1), ("a", 1, "a")]),
+        (ns["Half"][str, int], list[str], [["a"], [1]]),
+        (ns["Plain"][int], list[int], [[1], ["a"]]),
+        (ns["Nested"][str, int], dict[str, list[tuple[int, str]]], [{"k": [(1, "a")]}, {"k": [("a", 1)]}]),
+    ]
+    for alias, plain, data in cases:
+        for d in data:
+            for m in morph.MODES:
+                a = morph.canon_outcome(eng.real.load(m, True, alias, d))
+                b = morph.canon_outcome(eng.real.load(m, True, plain, d))
+                ctx.note_case({"alias": repr(alias), "d": repr(d), "m": m}, nontrivial=True, kind="type-alias:" + b["r"])
+                if a["r"] != b["r"] or (a["r"] == "ok" and a != b):
+                    ctx.fail("type-alias:argument-binding", f"{alias!r} is not processed as {plain!r}: load({d!r}) gives {a['r']}, the "
+                             f"plain spelling {b['r']} [{m}]", {"alias": repr(alias), "plain": repr(plain), "datum": repr(d), "mode": m})
+                    break
+
+
 def run(ctx: Ctx):
     eng = morph.Engine(ctx)
+    type_alias_probes(ctx, eng)
     specs = eng.gen_specs(ctx.budget(180, 2500), 3 if ctx.tier == "quick" else 4, related=True, literal_unions=True)
     recs = eng.load_records(specs, suite="load", n_valid=2, n_corrupt=3, n_hostile=3)
     for rec in recs:
@@ -403,6 +432,7 @@ def search(ctx: Ctx):
     for rec in eng.load_records(specs, n_valid=2, n_corrupt=4, n_hostile=4):
         oracle_load(ctx, eng, rec)
     builtin_subclass_union_probes(ctx, eng)
+    type_alias_probes(ctx, eng)
     for rec in eng.dump_records(specs, n_values=2):
         union_dump_oracle(ctx, eng, rec)
     newtype_probes(ctx, eng)
